@@ -17,6 +17,8 @@ def tokAux : Bytes → Bool → Int → Bytes → List Bytes
     else tokAux cs inQ par (c :: cur)
 def tokenise (s : Bytes) : List Bytes := tokAux s false 0 []
 
+notation "b_rp'" => (41 : UInt8)
+
 /-- `isSequenceSet` on the upper-cased token: digits, `:`, `*`, `,`; starting with a digit or `*` -/
 def isSeqSetTok (t : Bytes) : Bool :=
   t.all (fun c => isDigit c || c = b_colon || c = b_star || c = b_comma) &&
@@ -39,9 +41,28 @@ def classify (t : Bytes) : Tok :=
   else if u = b!"OR" then .orT
   else .other t
 
+/-- `searchGroup`: what is between the parentheses of a token that begins with `(` and ends with `)` -/
+def groupInner (t : Bytes) : Option Bytes :=
+  if t.length ≥ 2 ∧ t.head? = some b_lp ∧ t.getLast? = some b_rp then some ((t.drop 1).take (t.length - 2)) else none
+
+/-- a token with the tokens inside its parentheses (the code tokenises the inside again when it evaluates the group); the
+fuel bounds the nesting depth, the length of the text always suffices -/
+def classifyDeep : Nat → Bytes → Tok
+  | 0, t => classify t
+  | f + 1, t =>
+    match classify t with
+    | .other x =>
+      (match groupInner x with
+       | some inner => .group x ((tokenise inner).map (classifyDeep f))
+       | none => .other x)
+    | k => k
+
+def tokens (criteria : Bytes) : List Tok := (tokenise criteria).map (classifyDeep criteria.length)
+
 /-- the text of a token when it stands in argument position -/
 def Tok.text : Tok → Bytes
   | .seq s => s | .kw0 a => a | .kw1 a => a | .hdr => b!"HEADER" | .notT => b!"NOT" | .orT => b!"OR" | .other x => x
+  | .group raw _ => raw
 
 /-- `unquote` -/
 def unquote (s0 : Bytes) : Bytes :=
@@ -164,19 +185,31 @@ inductive Answer where
   | hits (ns : List Nat)
 deriving DecidableEq, Repr
 
-def hitsOf (uidMode : Bool) (toks : List Tok) (box : List Msg) : List Nat :=
-  (box.filter (fun m => (eval (primOf m) toks).getD false)).map (fun m => if uidMode then m.uid else m.seq)
+def fuelFor (criteria : Bytes) : Nat := 2 * criteria.length + 4
+
+def hitsOf (uidMode : Bool) (md : Mode) (fuel : Nat) (toks : List Tok) (box : List Msg) : List Nat :=
+  (box.filter (fun m => (evalKeys (primOf m) md fuel toks).getD false)).map (fun m => if uidMode then m.uid else m.seq)
+
+/-- a message on which well-formedness is judged (it does not depend on the message: `Search.wellformed`) -/
+def noMsg : Msg := { seq := 0, uid := 0, flags := [], idate := (0, 0, 0), sdate := none, raw := [], maxSeq := 0, maxUid := 0 }
+
+def wellFormed (md : Mode) (fuel : Nat) (toks : List Tok) : Bool := (evalKeys (primOf noMsg) md fuel toks).isSome
 
 /-- SEARCH / UID SEARCH as the code has them, on the selected mailbox's messages (ascending UID order): sequence numbers or
-UIDs. SEARCH runs the lenient validation pass (a bare unknown word is skipped: finding C19-F2); UID SEARCH runs none (it keeps
-skipping what it does not know, pinned by TestUIDSearch_DefaultBehavior: finding C19-F1). -/
+UIDs. SEARCH first walks the program (`validateSearchTokens`) and answers BAD when a key is incomplete; a bare unknown word
+is skipped (finding C19-F2). UID SEARCH walks nothing: an incomplete key makes the message not match, unknown words are
+skipped (pinned by TestUIDSearch_DefaultBehavior: finding C19-F1). -/
 def search (uidMode : Bool) (criteria : Bytes) (box : List Msg) : Answer :=
-  let toks := (tokenise criteria).map classify
-  if toks.isEmpty ∨ (!uidMode && !valid toks) then .bad else .hits (hitsOf uidMode toks box)
+  let toks := tokens criteria
+  let fuel := fuelFor criteria
+  if toks.isEmpty then .bad
+  else if uidMode then .hits (hitsOf true .uid fuel toks box)
+  else if wellFormed .search fuel toks then .hits (hitsOf false .search fuel toks box) else .bad
 
-/-- what the property demands: the supported fragment is evaluated, everything else is an error -/
+/-- what the property demands: a program of the search-key language is evaluated, everything else is an error -/
 def searchSpec (uidMode : Bool) (criteria : Bytes) (box : List Msg) : Answer :=
-  let toks := (tokenise criteria).map classify
-  if toks.isEmpty ∨ !strictValid toks then .bad else .hits (hitsOf uidMode toks box)
+  let toks := tokens criteria
+  let fuel := fuelFor criteria
+  if toks.isEmpty ∨ !wellFormed .spec fuel toks then .bad else .hits (hitsOf uidMode .spec fuel toks box)
 
 end Raven.Search
